@@ -637,7 +637,7 @@ def r11_raman_contraction(ctx):
                       f'{m.name}: `{ast.unparse(c)[:80]}` contracts the Raman matrix {how}: every step must use sum_j cr[i, j] P[j]; the '
                       'transposed product reverses the direction of the Raman transfer (numerical and perturbative results of a loaded '
                       'span then differ)')
-    ctx.need('R11.raman-contraction', 3)
+    ctx.need('R11.raman-contraction', 1)
 
 
 from ..memo import rule_for as _memo_rule
